@@ -3,6 +3,7 @@
 Confirms a sub-agent's seeded change (demo fails with the patch, passes without; builds), stores it as
 /verif/seeded/<name>/, runs the property's quick check against /repo with the patch applied, reverts."""
 import json, os, shutil, subprocess, sys, time
+R = os.environ.get("VERIF_REPO", "/repo")   # checks honour VERIF_REPO too (inherited environment)
 wt, prop, name, demo = sys.argv[1:5]
 def sh(cmd, cwd=None, timeout=3000):
     return subprocess.run(cmd, shell=True, cwd=cwd, capture_output=True, text=True, timeout=timeout)
@@ -34,10 +35,10 @@ for f in os.listdir(seed):
     if f != "patch.diff":
         shutil.copy(os.path.join(seed, f), os.path.join(d, f))
 # 3. run the check on /repo with the patch
-st = sh("git -C /repo status --porcelain").stdout.strip()
+st = sh("git -C %s status --porcelain" % R).stdout.strip()
 if st:
     print("repo not clean", st); sys.exit(2)
-a = sh("git -C /repo apply " + patch)
+a = sh("git -C %s apply %s" % (R, patch))
 if a.returncode:
     print("apply failed", a.stderr); sys.exit(2)
 try:
@@ -50,7 +51,7 @@ try:
     print(name, prop, verdict, "%.0fs" % (time.time() - t0))
     for l in res["check_lines"]: print("   ", l[:300])
 finally:
-    sh("git -C /repo checkout -- .")
+    sh("git -C %s checkout -- ." % R)
 notes = open(os.path.join(seed, "notes.md")).read() if os.path.exists(os.path.join(seed, "notes.md")) else ""
 meta = {"property": prop, "breaks": notes[:1500], "needs_to_manifest": "see notes.md", "ran": res,
         "source": "independent sub-agent given only the property text and a scratch worktree"}
